@@ -220,8 +220,8 @@ def mkdirsFor (d : Disk) (h : Bytes) : List Ev :=
   | [a, b, _] =>
     let l1 := [asciiBytes "cas", a]
     let l2 := [asciiBytes "cas", a, b]
-    (if d.dirs.contains l1 then [] else [Ev.mkdir l1]) ++
-    (if d.dirs.contains l2 then [] else [Ev.mkdir l2])
+    (if d.preTree || d.dirs.contains l1 then [] else [Ev.mkdir l1]) ++
+    (if d.preTree || d.dirs.contains l2 then [] else [Ev.mkdir l2])
   | _ => []
 
 inductive CkptReason where
@@ -345,12 +345,9 @@ def closeScript (m : Mem) : List Ev :=
   | some i => [Ev.sync (.seg i)]
   | none => []
 
-/-- `pre_create_all_cas_directories` -/
-def preCreateEvents (d : Disk) : List Ev :=
-  let hexb (i : Nat) : Bytes := [hexDigit (i / 16), hexDigit (i % 16)]
-  let all := (List.range 256).flatMap (fun i => (List.range 256).flatMap (fun j =>
-      [[asciiBytes "cas", hexb i], [asciiBytes "cas", hexb i, hexb j]]))
-  (all.eraseDups.filter (fun p => !d.dirs.contains p)).map Ev.mkdir
+/-- `pre_create_all_cas_directories`: 65 792 mkdirs, abstracted to one event (the harness
+    collapses the corresponding run of real mkdir calls; pre-created stores are not crash targets) -/
+def preCreateEvents (d : Disk) : List Ev := if d.preTree then [] else [Ev.mkdirTree]
 
 /-- what `open` does before it holds the lock: top-level directories, LOCK file -/
 def openPre (d : Disk) : List Ev :=
